@@ -329,6 +329,9 @@ def r4_inactive_payload(ctx, f, rep):
                 rep.check(active is True, 'C09-R4', hd.nname, '%s only for an active, non-superseded sender'
                           % (e['res'].split('::')[-1]), site=e['span'], construct='consumer:' + e['res'].split('::')[-1])
     rep.floor('C09-R4', n, 10, 'payload consumers in handle_data paths')
+    # ... and a payload that was decoded but not consumed (inactive sender) is gone with the datagram
+    from . import common as _cm
+    _cm.scratch_cleared(ctx, f, rep, 'C09-R4')
 
 
 def r5_forget(ctx, f, rep):
